@@ -101,3 +101,14 @@ package graph
 //@   ensures[alloc] forall a int :: old(allocatedArrId(a)) ==> allocatedArrId(a)
 //@   ensures[arrays] forall n *Node :: (arr(n.In) == old(arr(n.In)) || !old(allocatedArrId(now(arr(n.In)))))
 //@       && (arr(n.Out) == old(arr(n.Out)) || !old(allocatedArrId(now(arr(n.Out)))))
+
+// ---------------------------------------------------------------------------
+// bands: first and last node need a non-empty band (C01)
+//@ func Layer.Head
+//@   requires layer != nil && len(layer.Nodes) > 0
+//@   ensures result == layer.Nodes[0]
+//@   modifies nothing
+//@ func Layer.Tail
+//@   requires layer != nil && len(layer.Nodes) > 0
+//@   ensures result == layer.Nodes[len(layer.Nodes)-1]
+//@   modifies nothing
